@@ -281,6 +281,8 @@ func runC02(c *Ctx) {
 	checkAugment(c, p, "R02.5")
 	checkFirstSteps(c, p, "R02.6")
 	checkLR1Steps(c, p, "R02.7")
+	checkItemSetOps(c, p, "R02.8")
+	checkItemIdentity(c, p, "R02.8")
 	c.Assumptions = append(c.Assumptions, "FIRST sets, LR(1) closure and goto (GetFirstSets, FirstS, Closure, Goto, GetItemSets) compute the canonical collection — NOT decided: they are worklist algorithms over unbounded item sets",
 		"Parse terminates — NOT decided")
 	c.Trusted = append(c.Trusted, "go/ssa", "checker/sx.go", "the generated model's placeholder tables")
